@@ -21,7 +21,8 @@ CHECKS = {
              "expression printer methods produce token-safe text (oracle W1-W3). Effect judgement over the real source "
              "(interprocedural alias/effect inference): no renderer or query of declast.Declaration/Declarator/Ptr and no "
              "PrintNode visitor mutates the node it renders. Bounded (labelled): g++ static_assert(std::is_same) between "
-             "~290 declarations and shroud's rendering of them; every parenthesisation of <= 4 operands keeps its structure "
+             "~320 declarations and both shroud's re-rendering and the type it recorded (typemap rendering); scoped names "
+             "(::X, X, inner::X inside namespaces/classes) resolve as g++ resolves them; every parenthesisation of <= 4 operands keeps its structure "
              "through print and re-parse; parse(gen_decl(parse(d))) == parse(d) over a declarator grammar; renderers leave "
              "the node unchanged. One genuine defect found and fixed.",
         design_ref="6/C09, 12",
@@ -54,11 +55,14 @@ CHECKS = {
              "main_with_args runs each emitter's wrap_library only under its wrap.<lang> flag, in the order C, Fortran, "
              "Python, Lua, and writes --cfiles/--ffiles from the lists; the output directories are the option for their kind "
              "else --outdir; WrapFlags.accumulate/assign and PromoteWrap (a container's flag is the OR over all its members, "
-             "every member container visited); a default-argument variant keeps its function's wrap_c/wrap_fortran. Two "
-             "genuine defects found and fixed.",
+             "every member container visited); a default-argument variant keeps its function's wrap_c/wrap_fortran; every "
+             "loop over classes/namespaces in an emitter handles an element only under that element's own flag for the "
+             "emitter's language; every read of a Python/Lua wrap flag outside the Python/Lua emitters is flag bookkeeping, "
+             "the emitter gate, or the one documented struct-constructor site (non-interference table); the file lists are "
+             "per-run objects. Three genuine defects found and fixed.",
         design_ref="6/C15",
-        note="Not covered: byte-identity of C/Fortran files under wrap_python struct-constructor addition; per-declaration "
-             "flags inside the emitters beyond the units named. Bounded monitor m_wrapsel (both tiers).",
+        note="Not covered: byte-identity of C/Fortran files under wrap_python struct-constructor addition; per-function "
+             "flags inside wrap_function bodies. Bounded monitors m_wrapsel, m_purity.",
         technique="contract-based deductive verification (ghost sets, SMT) + structural obligations over the real AST",
     ),
     "C16": dict(
@@ -67,7 +71,8 @@ CHECKS = {
              "doxygen, literalinclude, show_splicer_comments and of config.write_version (60 sites) is the test of an `if` "
              "or initialises a local flag, and everything such a test controls only appends comment lines or blank lines, "
              "calls comment-only procedures, fills lists that only ever receive comment lines, or assigns locals used only "
-             "there; user-supplied doxygen texts reach the output one prefixed line at a time. One genuine defect found "
+             "there; a break/continue under such a test is accepted only when the whole loop is documentation-only; "
+             "user-supplied doxygen texts reach the output one prefixed line at a time. One genuine defect found "
              "and fixed. _create_splicer's independence of show_splicer_comments is proved under C12.",
         design_ref="6/C16",
         note="Syntactic judgement; assumes comment stripping of the target languages removes exactly what it calls a comment "
@@ -97,12 +102,17 @@ CHECKS = {
              "at the first '=', typed as the YAML file would type it (true/false -> bool, digits -> int, else text), a missing "
              "'=' stops with SystemExit. Call-site obligations computed from the AST: every attribute of `args` that "
              "main_with_args reads is set by create_wrapper and defined by the argument parser, with the same defaults. "
-             "FunctionNode.__init__ merges fattrs; every node's options/fmtdict parent is its syntactic parent's. "
-             "Three genuine defects found and fixed. Whole-run identity is only monitored (bounded, thorough tier).",
+             "FunctionNode.__init__ merges fattrs before the name is taken; every node's options/fmtdict parent is its syntactic "
+             "parent's; clone_scope_chain and the loop body of ClassNode.clone keep every enclosing scope (blocks) of a "
+             "function when a class template is instantiated (scope-chain signature, own-contract recursion); every "
+             "module-/class-level mutable root is reset or untouched per run, so create_wrapper after earlier runs equals a "
+             "fresh command line (effect judgement). Four genuine defects found and fixed. Whole-run identity is monitored "
+             "(bounded, both tiers: two-run relations m_equiv; m_options in the thorough tier).",
         design_ref="6/C14",
-        note="Not covered: util.Scope lookup semantics and per-node scope wiring (planned), attrs/fattrs merge, identity of "
-             "whole runs (bounded monitor m_options).",
-        technique="contract-based deductive verification (AST-generated VCs) + AST call-site obligations",
+        note="Assumed contracts: util.Scope.clone/reparent/get_parent, FunctionNode.clone. Not covered: util.Scope lookup "
+             "itself, per-argument attrs merge, ClassNode.clone outside the loop body, identity of whole runs (bounded "
+             "monitors m_equiv, m_options, m_purity).",
+        technique="contract-based deductive verification (AST-generated VCs) + AST call-site obligations + effect judgement (history independence) + bounded two-run relations",
     ),
     "C11": dict(
         category="proof",
